@@ -10,6 +10,8 @@ OBLIGATIONS = []
 def O(**kw):
     kw.setdefault('kind', 'enforce')
     kw.setdefault('tier', 'quick')
+    kw.setdefault('include', [])
+    kw.setdefault('backends', ['sat'])
     OBLIGATIONS.append(kw)
     return kw
 
@@ -104,23 +106,23 @@ O(id='ber_tlv_tag_serialize', props=['C01', 'C02', 'C07'], kind='width', harness
   units=[SK + 'ber_tlv_tag.c'], include=['contracts/ber_tlv_tag.h'], enforce=['ber_tlv_tag_serialize'],
   functions=['ber_tlv_tag_serialize', 'ber_fetch_tag'], unwind=8, bound='all 2^32 tags; loops bounded by ceil(30/7)+1 octets',
   min_props=40, backends=['cvc5', 'sat'])
-BL = dict(harness='harness/ber_len.c', units=[SK + 'ber_tlv_length.c'], include=[], backends=['sat'])
-O(id='ber_fetch_length', props=['C03', 'C04', 'C05'], kind='width', entry='h_ber_fetch_length', functions=['ber_fetch_length'],
-  proves=['ber_fetch_length'], unwind=129, bound='length-of-length field is 7 bits: at most 1+126 octets are read (buffer of 132 octets, unwind 129, unwinding assertions)',
+BL = dict(harness='harness/ber_len.c', units=[SK + 'ber_tlv_length.c'], backends=['sat'])
+O(id='ber_fetch_length', props=['C03', 'C04', 'C05', 'C19'], kind='width', entry='h_ber_fetch_length', functions=['ber_fetch_length'],
+  enforce=['ber_fetch_length'], include=['contracts/ber_tlv_length.h'], unwind=129, bound='length-of-length field is 7 bits: at most 1+126 octets are read (buffer of 132 octets, unwind 129, unwinding assertions)',
   min_props=20, timeout=600, **BL)
-O(id='ber_fetch_length.prefix', props=['C05'], kind='width', entry='h_ber_fetch_length_prefix', functions=['ber_fetch_length'],
+O(id='ber_fetch_length.prefix', props=['C05'], kind='width', entry='h_ber_fetch_length_prefix', functions=['ber_fetch_length'], include=[],
   unwind=129, bound='as ber_fetch_length', min_props=20, timeout=600, **BL)
-O(id='der_tlv_length_serialize', props=['C01', 'C02', 'C07'], kind='width', entry='h_der_tlv_length_serialize',
-  functions=['der_tlv_length_serialize', 'ber_fetch_length'], proves=['der_tlv_length_serialize'], unwind=10,
+O(id='der_tlv_length_serialize', props=['C01', 'C02', 'C07', 'C19'], kind='width', entry='h_der_tlv_length_serialize',
+  functions=['der_tlv_length_serialize', 'ber_fetch_length'], enforce=['der_tlv_length_serialize'], include=['contracts/ber_tlv_length.h'], unwind=10,
   bound='all lengths 0..SSIZE_MAX; loops bounded by sizeof(ssize_t)=8', min_props=30, **BL)
 
 # ---------------------------------------------------------------- L0: OER length
-OS = dict(harness='harness/h_oer_support.c', units=[SK + 'oer_support.c'], include=[], backends=['sat'])
+OS = dict(harness='harness/h_oer_support.c', units=[SK + 'oer_support.c'], include=['contracts/oer_support.h'], backends=['sat'])
 O(id='oer_serialize_length', props=['C01', 'C02', 'C07'], kind='width', entry='h_oer_serialize_length',
   functions=['oer_serialize_length', 'oer_fetch_length'], proves=['oer_serialize_length'], unwind=18,
   bound='all 2^64 lengths; loops bounded by sizeof(size_t)=8; callback = recording harness callback that may fail', min_props=30, **OS)
-O(id='oer_fetch_length', props=['C03', 'C04', 'C05'], kind='width', entry='h_oer_fetch_length', functions=['oer_fetch_length'],
-  proves=['oer_fetch_length'], unwind=129, bound='length-of-length field is 7 bits: at most 1+127 octets are read (buffer of 132 octets)', min_props=20, timeout=600, **OS)
+O(id='oer_fetch_length', props=['C03', 'C04', 'C05', 'C19'], kind='width', entry='h_oer_fetch_length', functions=['oer_fetch_length'],
+  enforce=['oer_fetch_length'], unwind=129, bound='length-of-length field is 7 bits: at most 1+127 octets are read (buffer of 132 octets)', min_props=20, timeout=600, **OS)
 O(id='oer_fetch_length.prefix', props=['C05'], kind='width', entry='h_oer_fetch_length_prefix', functions=['oer_fetch_length'],
   unwind=129, bound='as oer_fetch_length', min_props=20, timeout=600, **OS)
 
@@ -142,12 +144,12 @@ O(id='bits_roundtrip', props=['C01'], kind='width', entry='h_bits_roundtrip', fu
   unwind=10, cbmc=['--unwindset', 'asn_put_few_bits:3,asn_get_few_bits:4'], bound='all widths 0..31 at all bit offsets 0..31, all values', min_props=40, **BD)
 
 # ---------------------------------------------------------------- L0: PER support
-PS = dict(harness='harness/h_per_support.c', units=[SK + 'per_support.c', SK + 'asn_bit_data.c'], include=[], backends=['sat'],
+PS = dict(harness='harness/h_per_support.c', units=[SK + 'per_support.c', SK + 'asn_bit_data.c'],
           cbmc=['--unwindset', 'asn_put_few_bits:3,asn_get_few_bits:4,uper_get_constrained_whole_number:4,uper_put_constrained_whole_number_u:4'])
-O(id='per_long_range_rebase', props=['C01', 'C02', 'C08'], kind='width', entry='h_long_range', functions=['per_long_range_rebase', 'per_long_range_unrebase', 'per__long_range'],
-  proves=['per_long_range_rebase'], unwind=2, bound='all triples of long (loop-free)', min_props=10, **PS)
-O(id='per_long_range_unrebase', props=['C01', 'C04'], kind='width', entry='h_long_unrebase', functions=['per_long_range_unrebase'],
-  proves=['per_long_range_unrebase'], unwind=2, bound='all (unsigned long, long, long) triples (loop-free)', min_props=10, **PS)
+O(id='per_long_range_rebase', props=['C01', 'C02', 'C08', 'C19'], kind='width', entry='h_long_range', functions=['per_long_range_rebase', 'per_long_range_unrebase', 'per__long_range'],
+  enforce=['per_long_range_rebase'], include=['contracts/per_support.h'], backends=['cvc5', 'sat'], unwind=2, bound='all triples of long (loop-free)', min_props=10, **PS)
+O(id='per_long_range_unrebase', props=['C01', 'C04', 'C19'], kind='width', entry='h_long_unrebase', functions=['per_long_range_unrebase'],
+  enforce=['per_long_range_unrebase'], include=['contracts/per_support.h'], backends=['cvc5', 'sat'], unwind=2, bound='all (unsigned long, long, long) triples (loop-free)', min_props=10, **PS)
 O(id='uper_length', props=['C01', 'C02', 'C03'], kind='width', entry='h_uper_length', functions=['uper_put_length', 'uper_get_length'],
   proves=['uper_put_length'], unwind=34, bound='all 2^64 lengths at all bit alignments (loop-free code; harness field reader unwound)', min_props=30, **PS)
 O(id='uper_length_constrained', props=['C01', 'C02'], kind='width', entry='h_uper_length_constrained', functions=['uper_get_length'],
@@ -245,6 +247,28 @@ O(id='NativeInteger_der', props=['C01', 'C02', 'C13'], kind='width', entry='h_Na
   bound='all 2^64 long values', min_props=50, timeout=600, **ID)
 O(id='NativeInteger_decode_ber.b14', props=['C03', 'C04', 'C05'], kind='bounded', entry='h_NativeInteger_decode_ber', functions=['NativeInteger_decode_ber', 'ber_check_tags'],
   unwind=18, cbmc=IDC, bound='every input of at most 14 octets, signed and unsigned native fields', min_props=50, timeout=600, **ID)
+
+# ---------------------------------------------------------------- NativeInteger over UPER
+IU = dict(harness='harness/h_integer_uper.c', units=[SK + 'INTEGER.c', SK + 'NativeInteger.c', SK + 'per_support.c'], include=[], backends=['sat'],
+          fp_restrict=[(r'\.output\)$', ['vf_cb'])])
+IUC = ['--unwindset', 'asn_put_few_bits:3,asn_get_few_bits:4,uper_get_constrained_whole_number:4,uper_put_constrained_whole_number_u:4']
+O(id='NativeInteger_uper.constrained', props=['C01', 'C02', 'C08', 'C13'], kind='width', entry='h_NativeInteger_uper_constrained',
+  functions=['NativeInteger_encode_uper', 'INTEGER_encode_uper', 'NativeInteger_decode_uper', 'INTEGER_decode_uper'],
+  unwind=66, cbmc=IUC + ['--no-malloc-may-fail'], bound='every long triple (v, lb, ub) with lb <= ub, extensible or not; loops bounded by 8 octets / 64 bits',
+  min_props=100, timeout=1200, **IU)
+O(id='NativeInteger_uper.unconstrained', props=['C01', 'C02', 'C13'], kind='width', entry='h_NativeInteger_uper_unconstrained',
+  functions=['NativeInteger_encode_uper', 'INTEGER_encode_uper', 'NativeInteger_decode_uper', 'INTEGER_decode_uper'],
+  unwind=26, cbmc=IUC + ['--no-malloc-may-fail'], bound='every long value', min_props=100, timeout=1200, **IU)
+O(id='NativeInteger_decode_uper.any', props=['C04', 'C14'], kind='bounded', entry='h_NativeInteger_decode_uper_any',
+  functions=['NativeInteger_decode_uper', 'INTEGER_decode_uper'], unwind=26,
+  cbmc=IUC + ['--malloc-may-fail', '--malloc-fail-null', '--memory-leak-check'],
+  bound='every input of at most 96 bits, every constraint record (flags 0..7, range_bits -1..64, any bounds), signed/unsigned; every allocation may fail',
+  min_props=100, timeout=1200, **IU)
+
+# ---------------------------------------------------------------- C19: static state scan
+O(id='static_state_scan', props=['C19'], kind='static', harness='tools/static_scan.py', entry='main', script='tools/static_scan.py',
+  script_args=['c19_static_allow.json'], functions=[], no_canary=True,
+  bound='whole skeleton library (all functions in skeletons/*.c): direct writes to / address escapes of static-lifetime non-const objects, by goto-program text; writes through pointers are not tracked')
 
 UNVERIFIED = {
  'C07': ['asn_encode_to_buffer / asn_encode_to_new_buffer / uper_encode_to_buffer / uper_encode_to_new_buffer with a UPER type encoder: obligations exist (tier experimental) but do not discharge (symbolic-length memcpy of the 32-octet bit scratch space runs out of memory); asn_encode with UPER is covered',
